@@ -213,9 +213,53 @@ func ctConst(rel, name, lean string) func() string {
 	})
 }
 
+// the JSON messages of RFC 6962 section 4 (and the repository's JSON form of a signed tree head)
+var ctJSONStructs = []string{"AddChainRequest", "AddChainResponse", "GetSTHResponse", "GetSTHConsistencyResponse",
+	"GetProofByHashResponse", "LeafEntry", "GetEntriesResponse", "GetRootsResponse", "GetEntryAndProofResponse", "SignedTreeHead"}
+
+// ctJSONUnit: Go field name, Go type expression and `json:"…"` name of every field of the API message structs.
+func ctJSONUnit() string {
+	decls := ctLoad()
+	var rows []string
+	for _, n := range ctJSONStructs {
+		d, ok := decls["ct."+n]
+		if !ok {
+			panic(bail{"type ct." + n + " not found in types.go"})
+		}
+		st, ok := d.expr.(*ast.StructType)
+		if !ok {
+			panic(bail{"ct." + n + " is not a struct"})
+		}
+		var fs []string
+		for _, f := range st.Fields.List {
+			if len(f.Names) == 0 {
+				failf(f, "embedded field in %s", n)
+			}
+			name := ""
+			if f.Tag != nil {
+				raw, err := strconv.Unquote(f.Tag.Value)
+				if err != nil {
+					failf(f, "cannot unquote struct tag %s", f.Tag.Value)
+				}
+				name = strings.Split(reflect.StructTag(raw).Get("json"), ",")[0]
+			}
+			for _, fn := range f.Names {
+				jn := name
+				if jn == "" {
+					jn = fn.Name // encoding/json falls back to the Go field name
+				}
+				fs = append(fs, fmt.Sprintf("(%s, %s, %s)", strconv.Quote(fn.Name), strconv.Quote(src(f.Type)), strconv.Quote(jn)))
+			}
+		}
+		rows = append(rows, fmt.Sprintf("(%s, [%s])", strconv.Quote(n), strings.Join(fs, ", ")))
+	}
+	return "/-- generated from types.go: the API message structs — (Go field, Go type, JSON name) in declaration order -/\ndef apiJson : List (String × List (String × String × String)) :=\n  [" + strings.Join(rows, ",\n   ") + "]\n"
+}
+
 func init() {
 	register(genFile{name: "CtTypes", imports: []string{"CTV.Tls.Tag"}, units: []unit{
 		{"ct wire types", ctTypesUnit},
+		{"ct api json", ctJSONUnit},
 		{"TreeLeafPrefix", ctConst("types.go", "TreeLeafPrefix", "treeLeafPrefix")},
 		{"TreeNodePrefix", ctConst("types.go", "TreeNodePrefix", "treeNodePrefix")},
 		{"X509LogEntryType", ctConst("types.go", "X509LogEntryType", "x509LogEntryType")},
